@@ -335,6 +335,7 @@ void run_queue(const QParams& prm, const ExecCtx& ctx, ExecOut& out) {
     ++drained;
   }
   QueueModel model = ad->model(prm);
+  model.weak = ctx.weak;
   elems().queue_dying = true;
   {
     xrt::quiet_end();
